@@ -51,6 +51,8 @@ package config
 //@   at store map#4 assert arg0 == conf.fileRefSet && arg1 == app && fresh(arg2)
 //@   at store map#5 assert arg0 == conf.fileRefSet[app] && arg1 == key && arg2 == fileRef
 //@   at store map#6 assert arg0 == conf.values[app] && arg1 == key && arg2 == value
+//@   at store map#5 assert imp(conf.global != nil, exists && !global)
+//@   at store map#6 assert imp(conf.global != nil, exists && !global)
 //@   at store values#1 assert fresh(conf.values)
 //@   at store fileRefSet#1 assert fresh(conf.fileRefSet)
 //@   ensures imp(conf.global != nil && exists && !global && old@lock1(conf.properties[app][key].Dynamic.SetDynamic == nil && conf.properties[app][key].GoFunc.Write == nil), result == nil)
